@@ -63,6 +63,8 @@ pub enum Req {
     NextExtendsCurrent,
     /// requested is a strict prefix of what the new code reports
     PrefixOfReported,
+    /// the empty string is requested (no version is "the empty one": the new code reports a real version)
+    Empty,
 }
 
 #[derive(Clone, Copy, Debug, Serialize, Deserialize, PartialEq, Eq)]
@@ -236,7 +238,7 @@ impl Property for C15 {
         }
         for transfer_first in [false, true] {
             for auth in AUTHS {
-                for req in [Req::Same, Req::Next, Req::Wrong, Req::NextExtendsCurrent, Req::PrefixOfReported] {
+                for req in [Req::Same, Req::Next, Req::Wrong, Req::NextExtendsCurrent, Req::PrefixOfReported, Req::Empty] {
                     for data in [Data::WellTyped, Data::IllTyped, Data::TooManyArgs, Data::Fails, Data::ReportsOtherVersion, Data::ReportsOldVersion, Data::VersionUnreadableAfterwards(true), Data::VersionUnreadableAfterwards(false)] {
                         v.push(Case::Upg { target: UT::VerProbe, req, auth, data, transfer_first, earlier_runs: false });
                         v.push(Case::Upg { target: UT::VerProbe, req, auth, data, transfer_first, earlier_runs: true });
@@ -413,6 +415,7 @@ impl Property for C15 {
                     Req::Wrong => "9.9.9",
                     Req::NextExtendsCurrent => &extended,
                     Req::PrefixOfReported => "1.1",
+                    Req::Empty => "",
                 };
                 // migration data
                 let applicable = match (target, data) {
@@ -428,7 +431,7 @@ impl Property for C15 {
                             (Data::ReportsOldVersion, _) => cur_version,
                             (Data::VersionUnreadableAfterwards(true), _) => "",
                             (Data::VersionUnreadableAfterwards(false), _) => "#",
-                            (_, Req::PrefixOfReported) => "1.1.0",
+                            (_, Req::PrefixOfReported | Req::Empty) => "1.1.0",
                             _ => requested,
                         };
                         match d {
@@ -449,7 +452,7 @@ impl Property for C15 {
                     (_, Data::IllTyped | Data::TooManyArgs | Data::Fails | Data::VersionUnreadableAfterwards(_)) => None,
                     (UT::VerProbe, Data::ReportsOtherVersion) => Some("7.7.7"),
                     (UT::VerProbe, Data::ReportsOldVersion) => Some(cur_version),
-                    (UT::VerProbe, _) if *req == Req::PrefixOfReported => Some("1.1.0"),
+                    (UT::VerProbe, _) if matches!(req, Req::PrefixOfReported | Req::Empty) => Some("1.1.0"),
                     (UT::VerProbe, _) => Some(requested),
                     (UT::Dummy, _) => Some("0.2.0"),
                     (UT::Prod(_), _) => Some("0.1.0"),
